@@ -227,9 +227,16 @@ pub fn apply_all(
     let tx = stage("apply_args", || tx.apply_args(args))?;
     let tx = stage("apply_inputs", || tx.apply_inputs(inputs))?;
     let tx = stage("apply_fees", || tx.apply_fees(fee))?;
-    let tx = stage("reduce", || tx.reduce())?;
-    let tx = stage("apply_compiler", || tx.apply(compiler))?;
-    let tx = stage("reduce2", || tx.reduce())?;
+    let mut tx = stage("reduce", || tx.reduce())?;
+    // compiler-evaluated built-ins may be nested (`slot_to_time(tip_slot() + n)`): evaluate
+    // innermost first, reducing in between, until none is left
+    for _ in 0..4 {
+        tx = stage("apply_compiler", || tx.apply(compiler))?;
+        tx = stage("reduce2", || tx.reduce())?;
+        if crate::irgen::unresolved_of(&tx).compiler_ops == 0 {
+            break;
+        }
+    }
     Ok(tx)
 }
 
